@@ -4,6 +4,12 @@ from verifkit import read_lines, VERIF, LEAN
 
 REQUIRED = ["DaeVerif.C07.Props." + n for n in (
     "builder_accepts_wellformed",
+    "compileRequest_accepts_wellformed",
+    "request_match_case_and_trailing_dot",
+    "daedns_select_is_first_match",
+    "extra_sections_do_not_route",
+    "reject_empties_answer_section_only",
+    "reject_keeps_cache_of_names_with_bar",
     "request_match_is_first_match",
     "first_match_is_first",
     "name_case_and_trailing_dot",
